@@ -1,11 +1,344 @@
 import Jap.Core.Links
+import Jap.Lemmas.Links
 import Jap.Gen.LinksOrder
 /-!
-# C15 — A linked argument always equals the function of its sources (stub, being filled)
+# C15 — A linked argument always equals the function of its sources (links applied on parse)
+
+Model: `Jap.Links` (Core/Links.lean), a transcription of `ActionLink.__init__` / `_initial_input_checks`,
+`apply_parsing_links`, `set_target_value`, `ActionLink.__call__`, `strip_link_target_keys` and of the link part of
+`_parse_common`, on the Namespace model of C11.  The compute functions (`none` = the call raised), the type check of
+source values and the validation of the final configuration are parameters (`Env`); the assignments reaching the
+parser through defaults, environment, config, object and argv are an arbitrary list (`Input`), so every theorem
+holds whatever channel set the sources and whatever was supplied for the target.
+
+The parsers quantified over are those whose links were all registered by accepted `link_arguments` calls
+(`Accepted`).  `Unchained` is what `_initial_input_checks` compares: whole keys.
+
+FULL STATEMENT (what the property asks): for every accepted link set and every successful parse,
+`cfg[target] = F(cfg[sources])` for every link.  It is FALSE for the code and the faithful model in two ways, both
+proved below on concrete parsers and both open known findings:
+ * `C15-self-link`: the checks compare the new target with the sources of *previous* links only, so a link whose
+   target is one of its own sources is accepted (`C15_self_link_counterexample`);
+ * `C15-nested-chain`: keys are compared as whole strings, so `g` (a group) as source of one link and `g.p` as
+   target of another one are accepted, and the group is read before its member is written
+   (`C15_nested_chain_counterexample`).
+What is proved is the full statement under exactly these two guards, as decidable predicates on the link set:
+`noSelf` and `nonNested`.  `C15_not_in_dump` is proved for the key path of every target; for the *items* of a list
+of classes it is false (`C15_list_item_target_in_dump`, DESIGN §7 row 15c, open finding) and proved under the
+guard that the dest of the target does not hold a list.
 -/
 namespace Jap.Props.C15
 open Jap.NS Jap.Links
 
-theorem C15_option_rejected_stub (l : Link) : actionCall l = .error .linkCall := rfl
+/-- `p` is `p0` (no links yet, no link action, no action with an empty dest) after the accepted `link_arguments` calls `reqs` -/
+structure Accepted (p0 : Parser) (reqs : List LinkReq) (p : Parser) : Prop where
+  fresh : p0.links = []
+  dests : ∀ a ∈ p0.actions, a.dest ≠ []
+  noLinkActs : ∀ a ∈ p0.actions, a.kind ≠ .link
+  ok : addLinks p0 reqs = .ok p
+
+theorem Accepted.inv {p0 : Parser} {reqs : List LinkReq} {p : Parser} (h : Accepted p0 reqs p) : Inv p :=
+  Inv.steps reqs p0 p (Inv.init p0 h.fresh h.dests h.noLinkActs) h.ok
+
+/-! ## accepted link sets -/
+
+/-- no double targets, and no target of a link is a source of another link (no chains) -/
+theorem C15_no_chains (p0 p : Parser) (reqs : List LinkReq) (h : Accepted p0 reqs p) :
+    p.links.Pairwise (fun l l' => l.target ≠ l'.target ∧ l.target ∉ l'.sources.map (·.key) ∧
+      l'.target ∉ l.sources.map (·.key)) :=
+  h.inv.noChain
+
+/-- … hence, away from the two finding classes, every target diverges from every source and every other target -/
+theorem C15_independent (p0 p : Parser) (reqs : List LinkReq) (h : Accepted p0 reqs p)
+    (hs : noSelf p.links = true) (hn : nonNested p.links = true) :
+    (∀ l ∈ p.links, ∀ l' ∈ p.links, ∀ s ∈ l'.sources, diverges l.target s.key = true) ∧
+    p.links.Pairwise (fun l l' => diverges l.target l'.target = true) :=
+  indep_of_unchained p.links h.inv.noChain hs hn
+
+/-! ## the invariant -/
+
+/-- In every successfully parsed configuration, for every link whose sources are all present, the compute function
+    succeeds on the FINAL values of the sources and every place that holds the target (the key path, or the items
+    of a list of classes) holds its result; a plain target is always set.  `inputs` is arbitrary: any channel may
+    have set the sources, anything may have been supplied for the target. -/
+theorem C15_invariant (E : Env) (p0 p : Parser) (reqs : List LinkReq) (h : Accepted p0 reqs p)
+    (hs : noSelf p.links = true) (hn : nonNested p.links = true)
+    (inputs : List Input) (cfg : KV) (hp : parse E p inputs = .ok cfg) :
+    ∀ l ∈ p.links, ∀ args, argsOf cfg l.sources = some args →
+      ∃ v, linkValue E l args = .ok v ∧ (∀ w ∈ targetValues l cfg, w = v) ∧
+        (l.kind = .plain → getK l.target cfg = some v) := by
+  obtain ⟨hST, hTT⟩ := indep_of_unchained p.links h.inv.noChain hs hn
+  obtain ⟨c0, _, hc⟩ := parse_ok E p inputs cfg hp
+  obtain ⟨ha, _, _⟩ := parseCommon_ok E p c0 cfg hc
+  intro l hl args hargs
+  have hsrc := apply_sources_stable E p.links c0 cfg ha hST hTT
+  have h0 : argsOf c0 l.sources = some args := by
+    rw [← argsOf_congr cfg c0 l.sources (hsrc l hl)]; exact hargs
+  obtain ⟨v, hv, hw⟩ := apply_inv_all E p.links c0 cfg ha hST hTT l hl args h0
+  obtain ⟨v', hv', _, hpl⟩ := (apply_inv E p.links c0 cfg ha hST hTT).2 l hl args h0
+  rw [hv] at hv'; cases hv'
+  exact ⟨v, hv, hw, fun hk => hpl hk (h.inv.wf l hl).1⟩
+
+/-- the hypothesis "the sources are present" of `C15_invariant` is automatic for sources that are not below a
+    subclass-typed argument (for those the code skips the link while the source is absent) -/
+theorem C15_sources_present (E : Env) (p0 p : Parser) (reqs : List LinkReq) (h : Accepted p0 reqs p)
+    (hs : noSelf p.links = true) (hn : nonNested p.links = true)
+    (inputs : List Input) (cfg : KV) (hp : parse E p inputs = .ok cfg) :
+    ∀ l ∈ p.links, (∀ s ∈ l.sources, s.sub = false) → ∃ args, argsOf cfg l.sources = some args := by
+  obtain ⟨hST, hTT⟩ := indep_of_unchained p.links h.inv.noChain hs hn
+  obtain ⟨c0, _, hc⟩ := parse_ok E p inputs cfg hp
+  obtain ⟨ha, _, _⟩ := parseCommon_ok E p c0 cfg hc
+  intro l hl hsub
+  have hok := apply_each_ok E p.links c0 cfg ha hST l hl
+  rw [linkOk_congr E l c0 cfg (fun s hs' => (apply_sources_stable E p.links c0 cfg ha hST hTT l hl s hs').symm)] at hok
+  exact linkOk_present E l cfg hok hsub
+
+/-- One pass suffices: (1) the parsed configuration is a fixed point of the pass; (2) the pass in any other order
+    of the links succeeds as well, leaves every key that diverges from the targets as it was and puts the same
+    value at every place of every target (each link's value is determined by the sources as they stood before the
+    pass, which no link writes). -/
+theorem C15_one_pass_suffices (E : Env) (p0 p : Parser) (reqs : List LinkReq) (h : Accepted p0 reqs p)
+    (hs : noSelf p.links = true) (hn : nonNested p.links = true) (c0 cfg : KV)
+    (ha : applyParsingLinks E p.links c0 = .ok cfg) :
+    applyParsingLinks E p.links cfg = .ok cfg ∧
+    ∀ ls', ls'.Perm p.links → ∃ c2, applyParsingLinks E ls' c0 = .ok c2 ∧
+      (∀ k, (∀ l ∈ p.links, diverges l.target k = true) → getK k c2 = getK k cfg) ∧
+      (∀ l ∈ p.links, ∀ args, argsOf c0 l.sources = some args → ∃ v, linkValue E l args = .ok v ∧
+        (∀ w ∈ targetValues l cfg, w = v) ∧ (∀ w ∈ targetValues l c2, w = v) ∧
+        (l.kind = .plain → getK l.target c2 = getK l.target cfg)) := by
+  obtain ⟨hST, hTT⟩ := indep_of_unchained p.links h.inv.noChain hs hn
+  refine ⟨applyAll_of_each E cfg p.links (apply_fixed E p.links c0 cfg ha hST hTT h.inv.wf), ?_⟩
+  intro ls' hperm
+  obtain ⟨c2, h2, hf, hv⟩ := apply_perm E p.links ls' c0 cfg hperm ha hST hTT
+  refine ⟨c2, h2, hf, fun l hl args hargs => ?_⟩
+  obtain ⟨v, hv1, hw1, hw2, hpl⟩ := hv l hl args hargs
+  exact ⟨v, hv1, hw1, hw2, fun hk => hpl hk (h.inv.wf l hl).1⟩
+
+/-! ## required, option -/
+
+/-- the target is dropped from `required_args`, and no later call puts it back -/
+theorem C15_not_required (p0 p : Parser) (reqs : List LinkReq) (h : Accepted p0 reqs p) :
+    ∀ l ∈ p.links, l.target ∉ p.required :=
+  h.inv.notReq
+
+/-- the command-line option of a plain target makes the parse fail with the TypeError of `ActionLink.__call__`,
+    whatever else is given -/
+theorem C15_option_rejected (E : Env) (p0 p : Parser) (reqs : List LinkReq) (h : Accepted p0 reqs p)
+    (l : Link) (hl : l ∈ p.links) (hk : l.kind = .plain) (inputs : List Input) (i : Input) (hi : i ∈ inputs)
+    (hkey : i.key = l.target) (hchan : i.chan = .argv) :
+    parse E p inputs = .error .linkCall := by
+  have hpt : isPlainTarget p i.key = true := by
+    rw [hkey]
+    unfold isPlainTarget
+    exact List.any_eq_true.mpr ⟨⟨l.target, .link⟩, h.inv.plainAct l hl hk, by simp⟩
+  unfold parse
+  rw [feedAll_linkCall p inputs [] ⟨i, hi, hpt, hchan⟩]
+
+/-! ## dump and re-parse -/
+
+/-- the key path of every link target is absent from what `dump` serialises -/
+theorem C15_not_in_dump (p0 p : Parser) (reqs : List LinkReq) (h : Accepted p0 reqs p) (cfg : KV) :
+    ∀ l ∈ p.links, getK l.target (dump p cfg) = .none :=
+  getK_strip_target p h.inv cfg
+
+/-- no place holds the target after the strip, unless the dest of an `init_args` target holds a list -/
+theorem C15_not_in_dump_partial (p0 p : Parser) (reqs : List LinkReq) (h : Accepted p0 reqs p) (cfg : KV) :
+    ∀ l ∈ p.links, (∀ n, l.kind = .initArg n → ∀ items, getK (l.target.take n) cfg ≠ some (.lst items)) →
+      targetValues l (dump p cfg) = [] :=
+  targetValues_strip p h.inv cfg
+
+/-- Re-parsing a dump: let `load` stand for reading the dump back and merging it with the defaults (C01, C05, C14);
+    whenever it restores every key that diverges from the link targets, the link pass of the re-parse succeeds,
+    leaves those keys as they are and rebuilds every target: every place that holds a target holds the value it
+    held in `cfg`, and plain targets are restored exactly. -/
+theorem C15_reparse_reconstructs (E : Env) (p0 p : Parser) (reqs : List LinkReq) (h : Accepted p0 reqs p)
+    (hs : noSelf p.links = true) (hn : nonNested p.links = true)
+    (inputs : List Input) (cfg : KV) (hp : parse E p inputs = .ok cfg) (load : KV → KV)
+    (hload : ∀ k, (∀ l ∈ p.links, diverges l.target k = true) → getK k (load (dump p cfg)) = getK k cfg) :
+    ∃ cfg2, applyParsingLinks E p.links (load (dump p cfg)) = .ok cfg2 ∧
+      (∀ k, (∀ l ∈ p.links, diverges l.target k = true) → getK k cfg2 = getK k cfg) ∧
+      (∀ l ∈ p.links, ∀ args, argsOf cfg l.sources = some args → ∃ v, linkValue E l args = .ok v ∧
+        (∀ w ∈ targetValues l cfg, w = v) ∧ (∀ w ∈ targetValues l cfg2, w = v) ∧
+        (l.kind = .plain → getK l.target cfg2 = getK l.target cfg)) ∧
+      ((∀ c, E.valid c = true) → (∀ k ∈ p.required, ∀ l ∈ p.links, diverges l.target k = true) →
+        reparse E p load (dump p cfg) = .ok cfg2) := by
+  obtain ⟨hST, hTT⟩ := indep_of_unchained p.links h.inv.noChain hs hn
+  obtain ⟨c0, _, hc⟩ := parse_ok E p inputs cfg hp
+  obtain ⟨ha, _, hreq⟩ := parseCommon_ok E p c0 cfg hc
+  obtain ⟨cfg2, h2, hf, hv⟩ := reparse_links E p.links c0 cfg (load (dump p cfg)) ha hST hTT hload
+  refine ⟨cfg2, h2, hf, fun l hl args hargs => ?_, fun hvalid hroff => ?_⟩
+  · obtain ⟨v, hv1, hw1, hw2, hpl⟩ := hv l hl args hargs
+    exact ⟨v, hv1, hw1, hw2, fun hk => hpl hk (h.inv.wf l hl).1⟩
+  · unfold reparse parseCommon
+    rw [h2]
+    have hr2 : validateRequired p.required cfg2 = true := by
+      unfold validateRequired at hreq ⊢
+      rw [List.all_eq_true] at hreq ⊢
+      intro k hk
+      rw [hf k (hroff k hk)]
+      exact hreq k hk
+    simp [hvalid cfg2, hr2]
+
+/-- `dump` removes nothing but the targets: every key that diverges from them is as in the configuration -/
+theorem C15_dump_keeps_the_rest (p0 p : Parser) (reqs : List LinkReq) (h : Accepted p0 reqs p) (cfg : KV) (k : Key)
+    (hk : ∀ l ∈ p.links, diverges l.target k = true) : getK k (dump p cfg) = getK k cfg :=
+  getK_strip_frame p h.inv cfg k hk
+
+/-- … so that, in the model, the stripped configuration itself (`load` = identity: no class defaults to restore)
+    re-parses: the pass succeeds and every plain target gets back exactly the value it had -/
+theorem C15_reparse_plain (E : Env) (p0 p : Parser) (reqs : List LinkReq) (h : Accepted p0 reqs p)
+    (hs : noSelf p.links = true) (hn : nonNested p.links = true)
+    (inputs : List Input) (cfg : KV) (hp : parse E p inputs = .ok cfg) :
+    ∃ cfg2, applyParsingLinks E p.links (dump p cfg) = .ok cfg2 ∧
+      (∀ k, (∀ l ∈ p.links, diverges l.target k = true) → getK k cfg2 = getK k cfg) ∧
+      (∀ l ∈ p.links, l.kind = .plain → (∀ s ∈ l.sources, s.sub = false) →
+        getK l.target cfg2 = getK l.target cfg) := by
+  obtain ⟨cfg2, h2, hf, hv, _⟩ := C15_reparse_reconstructs E p0 p reqs h hs hn inputs cfg hp id
+    (fun k hk => getK_strip_frame p h.inv cfg k hk)
+  refine ⟨cfg2, h2, hf, fun l hl hk hsub => ?_⟩
+  obtain ⟨args, hargs⟩ := C15_sources_present E p0 p reqs h hs hn inputs cfg hp l hl hsub
+  obtain ⟨_, _, _, _, hpl⟩ := hv l hl args hargs
+  exact hpl hk
+
+/-! ## witnesses: the full statements fail (open findings), the hypotheses are satisfiable -/
+
+/-- compute functions of the witnesses: 0 = a + b, 1 = sum of the integer fields of a group, 2 = 2 * a -/
+def Fw : Nat → List V → Option V
+  | 0, [.atom a, .atom b] => some (.atom (a + b))
+  | 1, [.ns kvs] => some (.atom ((kvs.map fun kv => match kv.2 with | .atom a => a | _ => 0).foldl (· + ·) 0))
+  | 2, [.atom a] => some (.atom (2 * a))
+  | _, _ => .none
+
+def Ew : Env := { F := Fw, chk := fun _ _ => true, valid := fun _ => true }
+
+def sk (s : String) : SKey := ⟨false, s⟩
+/-- dotted keys, written out (`String.splitOn` does not reduce in the kernel) -/
+def key (s : String) : Key := [sk s]
+def key2 (a b : String) : Key := [sk a, sk b]
+def key3 (a b c : String) : Key := [sk a, sk b, sk c]
+def arg (k : Key) : Action := ⟨k, .arg⟩
+def parserOf (p0 : Parser) (reqs : List LinkReq) : Parser :=
+  match addLinks p0 reqs with
+  | .ok p => p
+  | .error _ => p0
+
+/-! ### C15-self-link -/
+
+def p0Self : Parser := { actions := [arg (key "a"), arg (key "b")], required := [], links := [] }
+def reqsSelf : List LinkReq := [⟨[key "a", key "b"], [], key "a", some 0⟩]
+
+/-- `link_arguments(("a", "b"), "a", add)` is accepted, the full no-chain statement (no target is a source of ANY
+    link) fails, and with `a: 10` from a config and `b = 2` the parse returns `a = 12` although `add(12, 2) = 14` -/
+theorem C15_self_link_counterexample :
+    addLinks p0Self reqsSelf = .ok (parserOf p0Self reqsSelf) ∧
+    noSelf (parserOf p0Self reqsSelf).links = false ∧
+    parse Ew (parserOf p0Self reqsSelf) [⟨.dflt, key "b", .atom 2⟩, ⟨.config, key "a", .atom 10⟩]
+      = .ok [(⟨false, "b"⟩, .atom 2), (⟨false, "a"⟩, .atom 12)] ∧
+    Fw 0 [.atom 12, .atom 2] = some (.atom 14) := by
+  refine ⟨rfl, by decide, rfl, rfl⟩
+
+/-! ### C15-nested-chain -/
+
+def p0Nest : Parser := { actions := [arg (key "a"), arg (key "b"), arg (key2 "g" "p"), arg (key2 "g" "q")], required := [], links := [] }
+def reqsNest : List LinkReq := [⟨[key "g"], [], key "b", some 1⟩, ⟨[key "a"], [], (key2 "g" "p"), .none⟩]
+
+/-- `link_arguments("g", "b", fsum)` then `link_arguments("a", "g.p")`: both accepted (no whole key repeats), the
+    keys `g` and `g.p` are nested, and `--a=100` gives `g.p = 100`, `b = 4 = fsum(g before the write)` although
+    `fsum(g) = 104` -/
+theorem C15_nested_chain_counterexample :
+    addLinks p0Nest reqsNest = .ok (parserOf p0Nest reqsNest) ∧
+    noSelf (parserOf p0Nest reqsNest).links = true ∧ nonNested (parserOf p0Nest reqsNest).links = false ∧
+    parse Ew (parserOf p0Nest reqsNest)
+        [⟨.dflt, key "a", .atom 1⟩, ⟨.dflt, key "b", .atom 0⟩, ⟨.dflt, (key2 "g" "p"), .atom 3⟩, ⟨.dflt, (key2 "g" "q"), .atom 4⟩,
+         ⟨.argv, key "a", .atom 100⟩]
+      = .ok [(⟨false, "a"⟩, .atom 100), (⟨false, "g"⟩, .ns [(⟨false, "q"⟩, .atom 4), (⟨false, "p"⟩, .atom 100)]),
+             (⟨false, "b"⟩, .atom 4)] ∧
+    Fw 1 [.ns [(⟨false, "q"⟩, .atom 4), (⟨false, "p"⟩, .atom 100)]] = some (.atom 104) := by
+  refine ⟨rfl, by decide, by decide, rfl, rfl⟩
+
+/-! ### 15c: items of a list of classes keep the target in the dump -/
+
+def p0List : Parser :=
+  { actions := [arg (key "a"), ⟨key "opts", .subclassL⟩, ⟨key "opt", .subclass⟩], required := [], links := [] }
+def reqsList : List LinkReq :=
+  [⟨[key "a"], [], (key3 "opts" "init_args" "dim"), .none⟩, ⟨[key "a"], [], (key3 "opt" "init_args" "dim"), some 2⟩]
+
+def cfgList : KV :=
+  [(⟨false, "a"⟩, .atom 5),
+   (⟨false, "opts"⟩, .lst [.ns [(⟨false, "class_path"⟩, .atom 1), (⟨false, "init_args"⟩, .ns [(⟨false, "dim"⟩, .none), (⟨false, "k"⟩, .atom 1)])],
+                          .ns [(⟨false, "class_path"⟩, .atom 2), (⟨false, "init_args"⟩, .ns [(⟨false, "k"⟩, .atom 7)])]]),
+   (⟨false, "opt"⟩, .ns [(⟨false, "class_path"⟩, .atom 1), (⟨false, "init_args"⟩, .ns [(⟨false, "dim"⟩, .atom 33)])])]
+
+def lOpts : Link := ⟨[⟨key "a", false, false⟩], key3 "opts" "init_args" "dim", .none, .initArg 1⟩
+def lOpt : Link := ⟨[⟨key "a", false, false⟩], key3 "opt" "init_args" "dim", some 2, .initArg 1⟩
+
+/-- the pass sets `dim` in the item that has it (and in `opt`, overriding the supplied 33); the strip removes
+    `opt.init_args.dim` (and the then empty `opt.init_args`) but leaves the items of `opts` as they are: the full
+    statement `targetValues l (dump p cfg) = []` fails for the list target -/
+theorem C15_list_item_target_in_dump :
+    addLinks p0List reqsList = .ok (parserOf p0List reqsList) ∧ (parserOf p0List reqsList).links = [lOpts, lOpt] ∧
+    ∃ cfg, parseCommon Ew (parserOf p0List reqsList) cfgList = .ok cfg ∧
+      targetValues lOpts cfg = [.atom 5] ∧ targetValues lOpts (dump (parserOf p0List reqsList) cfg) = [.atom 5] ∧
+      targetValues lOpt cfg = [.atom 10] ∧ targetValues lOpt (dump (parserOf p0List reqsList) cfg) = [] ∧
+      getK (key2 "opt" "init_args") (dump (parserOf p0List reqsList) cfg) = .none :=
+  ⟨rfl, rfl, _, rfl, rfl, rfl, rfl, rfl, rfl⟩
+
+/-! ### non-vacuity -/
+
+def p0Ok : Parser :=
+  { actions := [arg (key "a"), arg (key "b"), arg (key "c"), arg (key2 "g" "p"), arg (key2 "g" "q"), arg (key "m"), ⟨key "opt", .subclass⟩, ⟨key "opts", .subclassL⟩],
+    required := [key "c"], links := [] }
+def reqsOk : List LinkReq :=
+  [⟨[key "a", key "b"], [], key "c", some 0⟩, ⟨[key "g"], [true], key "m", .none⟩,
+   ⟨[(key2 "g" "q")], [], (key3 "opt" "init_args" "dim"), some 2⟩, ⟨[key "a"], [], (key3 "opts" "init_args" "dim"), .none⟩]
+
+/-- the hypotheses of the theorems hold for a parser with a required plain target, a group-valued source with the
+    dict coercion, an `init_args` target and a list-of-classes target -/
+example : Accepted p0Ok reqsOk (parserOf p0Ok reqsOk) ∧ noSelf (parserOf p0Ok reqsOk).links = true ∧
+    nonNested (parserOf p0Ok reqsOk).links = true ∧ (parserOf p0Ok reqsOk).required = [] :=
+  ⟨⟨rfl, by decide, by decide, rfl⟩, by decide, by decide, rfl⟩
+
+/-- … and a parse succeeds: `c` given by a config is overridden, `m` receives the group as a dict -/
+example : parse Ew (parserOf p0Ok reqsOk)
+    [⟨.dflt, key "a", .atom 1⟩, ⟨.dflt, key "b", .atom 2⟩, ⟨.dflt, key "c", .atom 0⟩, ⟨.dflt, (key2 "g" "p"), .atom 3⟩,
+     ⟨.dflt, (key2 "g" "q"), .atom 4⟩, ⟨.config, key "c", .atom 77⟩, ⟨.env, key "b", .atom 8⟩]
+    = .ok [(⟨false, "a"⟩, .atom 1), (⟨false, "b"⟩, .atom 8), (⟨false, "g"⟩, .ns [(⟨false, "p"⟩, .atom 3), (⟨false, "q"⟩, .atom 4)]),
+           (⟨false, "c"⟩, .atom 9), (⟨false, "m"⟩, .dct [(⟨false, "p"⟩, .atom 3), (⟨false, "q"⟩, .atom 4)])] := rfl
+
+/-- chains and double targets are refused -/
+example : addLinks p0Ok (reqsOk ++ [⟨[key "c"], [], key "b", .none⟩]) = .error .sourceIsTarget ∧
+    addLinks p0Ok (reqsOk ++ [⟨[key "b"], [], key "c", .none⟩]) = .error .doubleTarget ∧
+    addLinks p0Ok (reqsOk ++ [⟨[(key2 "g" "p")], [], key "a", .none⟩]) = .error .targetIsSource ∧
+    addLinks p0Ok [⟨[key "a", key "b"], [], key "c", .none⟩] = .error .multiNoFn ∧
+    addLinks p0Ok [⟨[key "nokey"], [], key "c", .none⟩] = .error .noAction ∧
+    addLinks p0Ok [⟨[key "a"], [], (key2 "opt" "dim"), .none⟩] = .error .badSubclassTarget :=
+  ⟨rfl, rfl, rfl, rfl, rfl, rfl⟩
+
+/-! ## the code runs the steps in the order the model assumes (regenerated from `_core.py`, `_link_arguments.py`) -/
+
+open Jap.Gen.LinksOrder in
+/-- `_parse_common`: subcommands and sub-defaults are merged before the links, validation comes after them -/
+theorem C15_code_links_before_validation :
+    parseCommon.idxOf "handle_subcommands" < parseCommon.idxOf "apply_parsing_links" ∧
+    parseCommon.idxOf "add_sub_defaults" < parseCommon.idxOf "apply_parsing_links" ∧
+    parseCommon.idxOf "apply_parsing_links" < parseCommon.idxOf "validate" ∧
+    parseCommon.idxOf "validate" < parseCommon.length := by decide
+
+open Jap.Gen.LinksOrder in
+/-- `dump` strips the link targets before anything is serialised; `save` strips them on its multi-file branch and
+    goes through `dump` otherwise -/
+theorem C15_code_dump_strips :
+    dump.idxOf "strip_link_target_keys" < dump.idxOf "as_dict" ∧
+    dump.idxOf "as_dict" < dump.idxOf "dump_using_format" ∧ dump.idxOf "dump_using_format" < dump.length ∧
+    save.idxOf "strip_link_target_keys" < save.length ∧ save.idxOf "dump" < save.idxOf "strip_link_target_keys" := by
+  decide
+
+open Jap.Gen.LinksOrder in
+/-- `_initial_input_checks` still raises for the three chain shapes and for several sources without function -/
+theorem C15_code_initial_checks :
+    ["Multiple source keys requires a compute function.", "Target \"\" is already a target of another link.",
+     "Source \"\" not allowed since it is the target of another link.",
+     "Target \"\" not allowed since it is the source of another link."].all (initialChecks.contains ·) = true := by
+  decide
 
 end Jap.Props.C15
